@@ -4,9 +4,12 @@
    reading parts of translators/updater.py and translators/securicad.py.
    The rebuild of the 0.0.39 loader is the same sequence of API calls as the native one (ModelLoad.load), so the
    rebuild theorem of C07 applies: C18_v0039_rebuild, C18_v0039_same_model.
-   PARTIAL: for .sCAD the rebuild is not modelled as API calls; the run (Legacy.scad_check on every generated archive)
-   ties load_scad to the implementation and to the expected links and entry points. *)
-From MT Require Import Prelude Codec ModelIO Model ModelOps ModelInv ModelLoad ModelLoadThm Legacy LegacyLoad.
+   The .sCAD loader adds one association object per linked pair: the content it rebuilds is the native content with every
+   association split into its pairs (PairLoad.pairs_content), which is loadable whenever the native one is, so the
+   rebuild theorem applies to it too (C18_scad_rebuild).
+   PARTIAL: for .sCAD the reading part (load_scad) is tied to the implementation by the run (Legacy.scad_check on every
+   generated archive: assets, links, entry points); entry points are not in the theorem. *)
+From MT Require Import Prelude Codec ModelIO Model ModelOps ModelInv ModelLoad ModelLoadThm Legacy LegacyLoad PairLoad.
 
 Theorem C18_v0039_roundtrip_partial : forall c, no_extras c = true -> decode39 (encode39 c) = Some c.
 Proof. exact decode39_encode39. Qed.
@@ -42,6 +45,16 @@ Theorem C18_scad_roundtrip_partial : forall class_of c r,
   load_scad class_of (to_scad c) = Some r -> sl_assets r = c_assets c /\ sl_links r = pairs_of c.
 Proof. exact scad_roundtrip_partial. Qed.
 Print Assumptions C18_scad_roundtrip_partial.
+
+(* a loader that adds one association per linked pair rebuilds a coherent model whose associations are exactly the
+   linked pairs of the native content *)
+Theorem C18_scad_rebuild : forall defaults c, loadable defaults c = true ->
+  exists s, load defaults (pairs_content c) = (s, MOk) /\ MI s /\ content_of defaults (c_name c) s = pairs_content c.
+Proof. exact pairs_rebuild. Qed.
+Print Assumptions C18_scad_rebuild.
+Theorem C18_pairs_are_the_links : forall c, map pair_key (c_assocs (pairs_content c)) = pairs_of c.
+Proof. exact pairs_content_pairs_of. Qed.
+Print Assumptions C18_pairs_are_the_links.
 
 Definition exC18 : content := mkC "m"
   [ mkCA 4%Z "x" "Aa" [("df", 0%Z)] []; mkCA (-2)%Z "y" "Bb" [] []; mkCA 0%Z "z" "Bb" [("dg", 1024%Z)] [] ]
